@@ -127,6 +127,15 @@ let () =
       | ["R"; rkind; rarg; t; obs] ->
         let exp = show_outcome (Errs.call (hres_of rkind rarg) (parse_term t)) in
         report_case ln ~expected:exp ~got:obs
+      | ["K"; mode; rkind; rarg; t; obs] ->
+        (* the handler returns after its own request was cancelled / its deadline passed *)
+        let cs = match mode with
+          | "self" | "helper" | "base" -> Errs.CtxCanceled
+          | "deadline" -> Errs.CtxDeadline
+          | "live" -> Errs.CtxLive
+          | _ -> raise (Bad_case "ctx-mode") in
+        let exp = show_outcome (Errs.call_ctx true cs (hres_of rkind rarg) (parse_term t)) in
+        report_case ln ~expected:exp ~got:obs
       | ["N"; rkind; rarg; t; obs] ->
         let exp = match Errs.notify (hres_of rkind rarg) (parse_term t) with
           | None -> "none"
